@@ -38,6 +38,7 @@ import (
 	"sort"
 	"strconv"
 	"strings"
+	"sync"
 	"sync/atomic"
 	"time"
 
@@ -425,9 +426,19 @@ func signature(stack string) []string {
 }
 
 const (
-	confirmWindow = 1500 * time.Millisecond // a goroutine parked this long with nobody else in flight never returns
-	hardTimeout   = 90 * time.Second
+	confirmWindow = 30 * time.Second // a goroutine parked this long on the same lock, at the same place, is declared blocked for good
+	hardTimeout   = 240 * time.Second
 )
+
+// window: how long a parked goroutine is watched before it is declared blocked for good.  Waiting for a
+// record guard with no other request in flight is a self-deadlock by construction (nothing in the
+// background ever takes record guards in the swamp modes used here), so a few consistent dumps suffice.
+func window(sig []string) time.Duration {
+	if len(sig) >= 3 && sig[1] == "sync.(*Cond).Wait" && sig[2] == "guard.(*guard).StartTreasureGuard" {
+		return 60 * time.Millisecond
+	}
+	return confirmWindow
+}
 
 // invoke runs fn in a goroutine. returned=false: the goroutine is parked for good (sig says where),
 // or (infra=true) it neither returned nor parked within the hard timeout.
@@ -475,7 +486,7 @@ func invoke(fn func() (proto.Message, error)) (res callResult, returned bool, si
 			if parkedSince.IsZero() || s != lastSig {
 				parkedSince = time.Now()
 				lastSig = s
-			} else if time.Since(parkedSince) > confirmWindow {
+			} else if time.Since(parkedSince) > window(signature(stack)) {
 				return callResult{}, false, signature(stack), st, false
 			}
 		} else {
@@ -502,8 +513,10 @@ func wireResp[T proto.Message](m T, err error) (proto.Message, error) {
 // execution of one abstract request
 
 type runner struct {
-	r   *rig.Rig
-	ctx context.Context
+	r         *rig.Rig
+	ctx       context.Context
+	par       int
+	abandoned atomic.Int64
 }
 
 var incNames = map[string]string{"i8": "Int8", "i16": "Int16", "i32": "Int32", "i64": "Int64", "u8": "Uint8",
@@ -781,7 +794,7 @@ func (x *runner) exec(sw string, q Req) (line map[string]any, returned bool, inf
 	}
 	switch m := res.resp.(type) {
 	case *hydrapb.SetResponse:
-		absStatuses(line, m.GetSwamps())
+		absStatuses(line, q, m.GetSwamps())
 	case *hydrapb.GetResponse:
 		line["sx"] = false
 		line["tr"] = []map[string]any{}
@@ -810,8 +823,11 @@ func (x *runner) exec(sw string, q Req) (line map[string]any, returned bool, inf
 				line["sw"] = rr.ErrorCode.String()
 			}
 			st := []string{}
-			for _, ks := range rr.GetKeyStatuses() {
-				st = append(st, ks.GetKey()+":"+ks.GetStatus().String())
+			for i, ks := range rr.GetKeyStatuses() {
+				if i >= len(q.Keys) || ks.GetKey() != q.Keys[i] {
+					line["err"] = "BadShape:keys"
+				}
+				st = append(st, ks.GetStatus().String())
 			}
 			line["st"] = st
 		} else {
@@ -829,20 +845,20 @@ func (x *runner) exec(sw string, q Req) (line map[string]any, returned bool, inf
 	case *hydrapb.IsKeyExistResponse:
 		line["b"] = m.GetIsExist()
 	case *hydrapb.AreKeysExistResponse:
-		bs := []string{}
+		bs := []bool{}
+		uniq := map[string]bool{}
 		for _, k := range q.Keys {
+			uniq[k] = true
 			v, ok := m.GetResults()[k]
-			switch {
-			case !ok:
-				bs = append(bs, k+":missing")
-			case v:
-				bs = append(bs, k+":true")
-			default:
-				bs = append(bs, k+":false")
+			if !ok {
+				line["err"] = "BadShape:missing " + k
 			}
+			bs = append(bs, v)
+		}
+		if len(m.GetResults()) != len(uniq) {
+			line["err"] = "BadShape:extra keys"
 		}
 		line["bs"] = bs
-		line["n"] = int64(len(m.GetResults()))
 	case *hydrapb.DestroyResponse, *hydrapb.AddToUint32SlicePushResponse, *hydrapb.Uint32SliceDeleteResponse:
 	case *hydrapb.Uint32SliceSizeResponse:
 		line["n"] = m.GetSize()
@@ -870,11 +886,16 @@ func (x *runner) exec(sw string, q Req) (line map[string]any, returned bool, inf
 	return line, true, false
 }
 
-func absStatuses(line map[string]any, sws []*hydrapb.SwampResponse) {
+func absStatuses(line map[string]any, q Req, sws []*hydrapb.SwampResponse) {
 	line["sw"] = ""
 	line["st"] = []string{}
-	if len(sws) != 1 {
+	line["nsw"] = len(sws)
+	if len(sws) < 1 || len(sws) > 2 {
 		line["err"] = fmt.Sprintf("BadShape:%d swamps", len(sws))
+		return
+	}
+	if len(sws) == 2 && (sws[1].ErrorCode != nil || len(sws[1].GetKeysAndStatuses()) != 0 || sws[0].ErrorCode == nil) {
+		line["err"] = "BadShape:second swamp response is not empty"
 		return
 	}
 	if sws[0].ErrorCode != nil {
@@ -882,7 +903,18 @@ func absStatuses(line map[string]any, sws []*hydrapb.SwampResponse) {
 	}
 	st := []string{}
 	for _, ks := range sws[0].GetKeysAndStatuses() {
-		st = append(st, ks.GetKey()+":"+ks.GetStatus().String())
+		st = append(st, ks.GetStatus().String())
+	}
+	if len(st) > 0 {
+		if len(st) != len(q.Items) {
+			line["err"] = "BadShape:statuses"
+		} else {
+			for i, ks := range sws[0].GetKeysAndStatuses() {
+				if ks.GetKey() != q.Items[i].K {
+					line["err"] = "BadShape:keys"
+				}
+			}
+		}
 	}
 	line["st"] = st
 }
@@ -927,35 +959,76 @@ func run(inPath, outPath string) error {
 		r.Register("kv"+m, "*", "*", s.inMem, s.idleSec, s.writeSec)
 	}
 	x := &runner{r: r, ctx: context.Background()}
-	abandoned := 0
+	par := 1
+	if v, err := strconv.Atoi(os.Getenv("SWAMPKV_PAR")); err == nil && v > 1 {
+		par = v
+	}
+	x.par = par
+	var abandoned atomic.Int64
+	var infraErr atomic.Value
+	var emitMu sync.Mutex
+	jobs := make(chan History)
+	var wg sync.WaitGroup
+	for i := 0; i < par; i++ {
+		wg.Add(1)
+		go func() {
+			defer wg.Done()
+			for h := range jobs {
+				if infraErr.Load() != nil {
+					continue
+				}
+				sw := rig.SwampName("kv"+h.Mode, "t"+in.Tag, "h"+strconv.Itoa(h.ID))
+				lines := []map[string]any{{"ev": "reset", "h": h.ID, "mode": h.Mode}}
+				ended := false
+				for i, q := range h.Steps {
+					var line map[string]any
+					returned, infra := true, false
+					if f, ok := lifecycleOps[q.Op]; ok {
+						line, infra = f(x, sw, h, q)
+					} else {
+						line, returned, infra = x.exec(sw, q)
+					}
+					line["ev"], line["h"], line["i"] = "call", h.ID, i
+					lines = append(lines, line)
+					if infra {
+						infraErr.Store(fmt.Errorf("history %d step %d (%s): call neither returned nor parked within %s: %v %v", h.ID, i, q.Op, hardTimeout, line["sig"], line["why"]))
+						ended = true
+						break
+					}
+					if !returned {
+						abandoned.Add(1)
+						x.abandoned.Add(1)
+						ended = true
+						break
+					}
+				}
+				if !ended && os.Getenv("SWAMPKV_KEEP") == "" {
+					// free the swamp (memory, file handle, file); not part of the history
+					req := &hydrapb.DestroyRequest{IslandID: 1, SwampName: sw}
+					invoke(func() (proto.Message, error) { return wireResp(x.r.GW.Destroy(x.ctx, rig.Wire(req))) })
+				}
+				emitMu.Lock()
+				for _, l := range lines {
+					w.Emit(l)
+				}
+				emitMu.Unlock()
+			}
+		}()
+	}
 	for _, h := range in.Histories {
-		sw := rig.SwampName("kv"+h.Mode, "t"+in.Tag, "h"+strconv.Itoa(h.ID))
-		w.Emit(map[string]any{"ev": "reset", "h": h.ID, "mode": h.Mode})
-		for i, q := range h.Steps {
-			var line map[string]any
-			returned, infra := true, false
-			if f, ok := lifecycleOps[q.Op]; ok {
-				line, infra = f(x, sw, h, q)
-			} else {
-				line, returned, infra = x.exec(sw, q)
-			}
-			line["ev"], line["h"], line["i"] = "call", h.ID, i
-			w.Emit(line)
-			if infra {
-				w.Close()
-				return fmt.Errorf("history %d step %d (%s): call neither returned nor parked within %s: %v", h.ID, i, q.Op, hardTimeout, line["sig"])
-			}
-			if !returned {
-				abandoned++
-				break
-			}
-		}
+		jobs <- h
+	}
+	close(jobs)
+	wg.Wait()
+	if e := infraErr.Load(); e != nil {
+		w.Close()
+		return e.(error)
 	}
 	w.Emit(map[string]any{"ev": "end", "h": 0})
 	if err := w.Close(); err != nil {
 		return err
 	}
-	if abandoned == 0 {
+	if abandoned.Load() == 0 {
 		stopped := make(chan struct{})
 		go func() { r.Stop(); close(stopped) }()
 		select {
